@@ -89,6 +89,20 @@ pub fn catalogue() -> Vec<Op> {
         "format/summary" => |e, a| { let n = a.rng.below(40); bc_envelope::with_format_context!(|c: &FormatContext| e.summary(n, c)) },
         // ---- serialisation / parsing
         "parse/cbor_roundtrip" => |e, a| { (Envelope::try_from_cbor_data(env_bytes(e)).is_ok(), Envelope::try_from_cbor(e.tagged_cbor()).is_ok(), Envelope::try_from(e.untagged_cbor()).is_ok()) },
+        "parse/hostile_bytes" => |e, a| {
+            // structural mutants of this envelope's own encoding, through every bytes/CBOR entry point
+            if let Ok(item) = spec::parse_item(&env_bytes(e)) {
+                for _ in 0..3 {
+                    let (m, _) = c06::structural_for_c16(&item, &mut a.rng);
+                    let b = encode(&m);
+                    let _ = Envelope::try_from_cbor_data(b.clone()).map(|d| (d.format_flat(), d.elements_count()));
+                    if let Ok(c) = dcbor::CBOR::try_from_data(&b) {
+                        let _ = Envelope::try_from_cbor(c.clone()).is_ok();
+                        let _ = Envelope::new(c).format_flat();
+                    }
+                }
+            }
+        },
         "parse/ur" => |e, a| { let s = e.ur_string(); Envelope::from_ur_string(s).is_ok() },
         "parse/expression" => |e, a| { (Expression::try_from(e.clone()).is_ok(), Expression::try_from((e.clone(), Some(&functions::ADD))).is_ok()) },
         "parse/request" => |e, a| { (Request::try_from(e.clone()).is_ok(), Request::try_from((e.clone(), Some(&functions::ADD))).is_ok()) },
@@ -117,7 +131,7 @@ pub fn catalogue() -> Vec<Op> {
         "obscure/compress" => |e, a| { (e.compress().is_ok(), e.uncompress().is_ok(), e.compress_subject().is_ok(), e.uncompress_subject().is_ok(), e.compress().and_then(|c| c.uncompress()).is_ok(), e.compress_subject().and_then(|c| c.uncompress_subject()).is_ok()) },
         "obscure/encrypt" => |e, a| { let k = a.key.clone(); (e.encrypt_subject(&k).is_ok(), e.decrypt_subject(&k).is_ok(), e.encrypt(&k), e.decrypt(&k).is_ok(), e.encrypt_subject(&k).and_then(|x| x.decrypt_subject(&k)).is_ok(), e.encrypt(&k).decrypt(&SymmetricKey::new()).is_ok()) },
         // ---- cryptographic verification
-        "verify/has_signature_from" => |e, a| { let k = &a.signers[a.rng.below(a.signers.len())]; (e.has_signature_from(&k.pk).is_ok(), e.verify_signature_from(&k.pk).is_ok(), e.has_signature_from_returning_metadata(&k.pk).is_ok(), e.verify_signature_from_returning_metadata(&k.pk).is_ok()) },
+        "verify/has_signature_from" => |e, a| { for k in a.signers.iter() { let _ = (e.has_signature_from(&k.pk).is_ok(), e.verify_signature_from(&k.pk).is_ok(), e.has_signature_from_returning_metadata(&k.pk).is_ok(), e.verify_signature_from_returning_metadata(&k.pk).is_ok()); } },
         "verify/threshold" => |e, a| { let ks: Vec<&dyn Verifier> = a.signers.iter().take(3).map(|k| &k.pk as &dyn Verifier).collect(); let t = a.rng.below(5); (e.has_signatures_from(&ks).is_ok(), e.has_signatures_from_threshold(&ks, Some(t)).is_ok(), e.verify_signatures_from(&ks).is_ok(), e.verify_signatures_from_threshold(&ks, Some(t)).is_ok(), e.has_signatures_from(&[]).is_ok()) },
         "verify/verify" => |e, a| { let k = &a.signers[a.rng.below(a.signers.len())]; (e.verify(&k.pk).is_ok(), e.verify_returning_metadata(&k.pk).is_ok()) },
         "verify/direct" => |e, a| { let k = &a.signers[0]; let sig = k.sign(b"x"); (e.is_verified_signature(&sig, &k.pk), e.verify_signature(&sig, &k.pk).is_ok(), e.make_signed_assertion(&sig, Some("note")), e.make_signed_assertion(&sig, None)) },
@@ -160,6 +174,12 @@ fn decorate(e: &Envelope, a: &mut Aux) -> Envelope {
         5 => e.add_assertion_salted(known_values::SALT, "not a salt", true).add_assertion(known_values::SIGNED, "not a signature").add_assertion(known_values::HAS_RECIPIENT, 5).add_assertion(known_values::SSKR_SHARE, "x"),
         6 => e.add_assertion(known_values::BODY, "b").add_assertion(known_values::RESULT, "r").add_assertion(known_values::ERROR, "e").add_assertion(known_values::CONTENT, 1).add_assertion_salted(known_values::NOTE, 3, true).add_assertion_salted(known_values::DATE, "d", true),
         7 => e.add_assertion_salted(known_values::ATTACHMENT, Envelope::new("p").wrap_envelope().add_assertion_salted(known_values::VENDOR, "v", true), true),
+        8 if a.rng.chance(1, 2) => {
+            // a bare signature leaf that carries assertions of its own (a note, an unwrapped countersignature)
+            let so = Envelope::new(sig.clone());
+            let counter = k.sign(so.digest().data());
+            e.add_assertion(known_values::SIGNED, so.add_assertion(known_values::SIGNED, counter).add_assertion(known_values::NOTE, "countersigned"))
+        }
         _ => e.add_assertion(known_values::SIGNED, Envelope::new(sig).add_assertion(known_values::NOTE, "m").wrap_envelope().add_assertion_salted(known_values::SIGNED, k.sign(b"zz"), true)),
     }
 }
